@@ -44,7 +44,7 @@ SIDE2 = ["b", "beh-ar", "alef-hb", "one", "period", "acutecomb", "A-cy", "ka-dev
 VALUES = [-50, 35, 0, 6.5, -7.5]
 
 ENVS = ["categories", "ls-dflt", "ls-multi", "gsub-alt", "gsub-neutral-alt", "skip-b", "missing-in-group",
-        "q5", "q10", "no-ignoremarks"]
+        "q5", "q10", "no-ignoremarks", "gdef-carets"]
 
 FEA = {
     "ls-dflt": "languagesystem DFLT dflt;\n",
@@ -52,6 +52,8 @@ FEA = {
                 "languagesystem arab dflt;\n",
     "gsub-alt": "feature salt { sub a by x.alt; } salt;\n",
     "gsub-neutral-alt": "feature salt { sub period by x.alt; } salt;\n",
+    # a hand-written GDEF block that defines no glyph classes (they come from the categories)
+    "gdef-carets": "table GDEF { LigatureCaretByPos one 100; } GDEF;\n",
 }
 
 
@@ -308,6 +310,7 @@ class C05(Property):
                 out.append([{"G": gi, "env": [e], "expand": "once"}])
             out.append([{"G": gi, "env": ["categories", "ls-multi"], "expand": "once"}])
             out.append([{"G": gi, "env": ["categories", "gsub-alt"], "expand": "once"}])
+            out.append([{"G": gi, "env": ["categories", "gdef-carets"], "expand": "once"}])
         for gi in b["groups"]:
             if gi in (0, 4, 7):
                 for env in ([], ["categories"]):
